@@ -22,9 +22,12 @@ ENTRY = dict(
                    "the random tape; enough fuel excludes NoFuel. The step from the guarded search space to the declarative specification "
                    "(all 5^g assignments on the wire-segment graph) is a named hypothesis (pruning_sound_for) of c08_flag_sound and is PROVED ONLY "
                    "ON A FINITE DOMAIN by complete enumeration inside Coq (c08_pruning_sound_bounded: every circuit up to relabelling with <=3 "
-                   "two-qubit gates of gamma 3/7 on <=4 qubits, W in 1..4, every cut-kind combination); the unbounded exchange argument is open. "
+                   "two-qubit gates of gamma 3/7 on <=4 qubits incl. idle ones, W in 1..4, every cut-kind combination, symbolic instruction ids); "
+                   "the same for <=4 gates (14 510 circuits) is proved in Proofs/BestFirstSpec4.v but kept outside this property's cone because "
+                   "coqchk needs over an hour for it; the unbounded exchange argument is open. "
                    "Closed under the global context. The model's (overhead, minimum_reached) are compared exactly with find_cuts on >1300 requests "
-                   "x 2-3 seeds per quick run (bounded-exhaustive small circuits + random circuits + the F3 witness class).",
+                   "x 2-3 seeds per quick run (bounded-exhaustive small circuits + random circuits + the F3 witness class; thorough: all 162 300 "
+                   "requests of the <=4-gate space + 5000 random ones), and the independent brute-force oracle runs on every generated case.",
         level_note=STD_NOTE + "No axioms. heapq is modelled as extract-min over a list (oracle contract O-heap); the numpy Generator as a recorded tape.",
         assumptions=[
             "Model/CutFinder*.v (written for C07) is a hand-written model of find_cuts and the cut_finding package; tied to the source by the C07 "
@@ -33,7 +36,8 @@ ENTRY = dict(
             "the flag is set; candidate fix F3); fact bf_bound_branch_requeues ties this to the source and is false on the unrepaired tree",
             "gate gammas >= 1 (hypothesis gammas_ok_in; kappa of every QPD basis, C15; monitored on every generated case)",
             "c08_pruning_sound (guards, no-merge clauses and the wire-cut budget ceil(log2(gamma+1)-1) lose no optimum) is proved by enumeration "
-            "for <=3 gates / <=4 qubits / gammas {3,7} only; beyond that it is a hypothesis of c08_flag_sound, probed by the brute-force oracle",
+            "for <=3 gates / <=4 qubits / gammas {3,7} only (<=4 gates outside the cone); beyond that it is a hypothesis of c08_flag_sound, probed "
+            "on every generated case by the brute-force oracle of harness/c08.py (a rejected case is marked k_oracle=false and reported)",
             "binary64: gamma_UB ** 2 is exact below 2^26 (cases with a larger greedy gamma are skipped by the generator)",
             "max_wire_cuts_gamma is modelled exactly over Q (np.log2/np.ceil corner cases at powers of two are not modelled)",
         ],
